@@ -164,3 +164,67 @@ package regattaserver
 //@   ensures [C16.fwd.local]  old(allRange(req)) ==> r.client.ccalls == old(r.client.ccalls)
 //@   modifies r.client.ccalls, r.q.nwait, r.q.lastRev, r.KVServer.Storage.scalls
 //@ pure func allRange(req *regattapb.TxnRequest) bool = (forall j int :: 0 <= j && j < len(req.Success) ==> typeIs(req.Success[j].Request, *regattapb.RequestOp_RequestRange)) && (forall j int :: 0 <= j && j < len(req.Failure) ==> typeIs(req.Failure[j].Request, *regattapb.RequestOp_RequestRange))
+
+// ---------------------------------------------------------------- snapshot stream (C07)
+
+//@ import snapshot "github.com/jamf/regatta/replication/snapshot"
+//@ import table "github.com/jamf/regatta/storage/table"
+//@ import fsm "github.com/jamf/regatta/storage/table/fsm"
+//@ import os "os"
+//@ import bufio "bufio"
+//@ import status "google.golang.org/grpc/status"
+
+// callees of Stream that are not under contract here: ASSUMED frames (what they may write)
+//@ iface regattaserver.TableService.GetTable
+//@   assumed
+//@   modifies nothing
+//@ iface regattapb.Snapshot_StreamServer.Context
+//@   assumed
+//@   ensures result != nil
+//@   modifies nothing
+//@ iface context.Context.Deadline
+//@   assumed
+//@   modifies nothing
+//@ func regattapb.(*SnapshotRequest).GetTable
+//@   assumed
+//@   modifies nothing
+//@ func snapshot.NewTemp
+//@   assumed
+//@   results f, err
+//@   ensures err == nil ==> f != nil && fresh(f) && f.File != nil && fresh(f.File) && f.nmsg == 0
+//@   modifies nothing
+// ActiveTable.Snapshot: the state machine writes the pairs of one point-in-time view into the writer
+// and answers with the applied index of that same view (fsm.commandSnapshot, C07.capture.*)
+//@ func table.(*ActiveTable).Snapshot
+//@   assumed
+//@   results resp, err
+//@   ensures err == nil ==> resp != nil && fresh(resp)
+//@   modifies writer.sdata, writer.slen, writer.nmsg, writer.msg
+// snapshotFile.Write: one message per call (framing: C18)
+//@ func snapshot.(*snapshotFile).Write
+//@   assumed
+//@   params s, p
+//@   results n, err
+//@   requires s != nil
+//@   ensures err == nil && len(p) > 0 ==> s.nmsg == old(s.nmsg) + 1 && s.msg[old(s.nmsg)] == old(bytesOf(p))
+//@   ensures forall i int :: 0 <= i && i < old(s.nmsg) ==> s.msg[i] == old(s.msg[i])
+//@   modifies s.nmsg, s.msg
+//@ func snapshot.(*snapshotFile).Sync
+//@   assumed
+//@   modifies nothing
+//@ func snapshot.(*snapshotFile).Close
+//@   assumed
+//@   modifies nothing
+//@ func snapshot.(*snapshotFile).Path
+//@   assumed
+//@   modifies nothing
+//@ func (*SnapshotServer).Stream$1
+//@   requires *sf != nil
+//@   modifies nothing
+
+// Stream: whatever the table wrote, the message written next - and last, before the file is shipped -
+// is a DUMMY command whose leader index is the index the table's snapshot answered with.
+//@ func (*SnapshotServer).Stream
+//@   requires s != nil && s.Tables != nil && req != nil && srv != nil
+//@   before snapshot.(*snapshotFile).Write assert [C07.final] cmdKind(p) == 2 && hasLI(p) && liVal(p) == resp.Index
+//@   modifies nothing
